@@ -475,6 +475,9 @@ def gen_join():
                     ("aggregate-where", sel(tbl("u"), [(agg("COUNT_STAR"), "a")], where=("isnull", UA)))]:
         out.append(("join-inner", "cross-to-one-row-derived." + tag, sel(join("CROSS", tbl("t"), sub(q1, "s")), [(TA, "c0"), (TB, "c1")]), 2))
         out.append(("join-left", "left-to-one-row-derived." + tag, sel(join("LEFT", tbl("t"), sub(q1, "s"), L(True)), [(TA, "c0"), (TB, "c1")]), 2))
+    # CROSS JOIN ... ON <condition> (accepted by SQLite / MySQL): an inner join
+    out.append(("join-inner", "cross-with-on", sel(join("CROSS", tbl("t"), tbl("u"), ("eq", TA, UA)), ALL4), 2))
+    out.append(("join-inner", "cross-with-on", sel(join("CROSS", tbl("t"), tbl("u"), ("lt", TA, UB)), ALL4), 2))
     for wtag, w in wheres[1:] + [("+where-equi", ("eq", TA, UA)), ("+where-non-equi", ("lt", TA, UA))]:
         out.append(("join-inner", "cross" + wtag, sel(join("CROSS", tbl("t"), tbl("u")), ALL4, where=w), 2))
     return out
